@@ -14,6 +14,7 @@ import (
 	"strings"
 
 	"github.com/mmcloughlin/geohash"
+	"github.com/tidwall/geojson/geometry"
 	"github.com/tidwall/tile38/internal/bing"
 	"pgregory.net/rapid"
 )
@@ -345,11 +346,26 @@ func (p pool) object(rt *rapid.T) objSpec {
 	case k < 65:
 		x, y := p.xy(rt)
 		return objSpec{[]string{"HASH", geohash.EncodeWithPrecision(y, x, uint(rapid.IntRange(1, 12).Draw(rt, "hprec")))}}
-	case k < 97:
+	case k < 93:
 		return objSpec{[]string{"OBJECT", p.geojson(rt, false)}}
+	case k < 97:
+		// geometries without a position: legal, stored, never in the spatial
+		// index, matched by no area (moves turn other objects into these too)
+		return objSpec{[]string{"OBJECT", rapid.SampledFrom(emptyGeoms).Draw(rt, "empty")}}
 	default:
 		return objSpec{[]string{"STRING", rapid.SampledFrom([]string{"hello", "", "12.5", `{"type":"Point","coordinates":[1,2]}`}).Draw(rt, "str")}}
 	}
+}
+
+var emptyGeoms = []string{
+	`{"type":"GeometryCollection","geometries":[]}`,
+	`{"type":"FeatureCollection","features":[]}`,
+	`{"type":"MultiPoint","coordinates":[]}`,
+	`{"type":"MultiLineString","coordinates":[]}`,
+	`{"type":"MultiPolygon","coordinates":[]}`,
+	`{"type":"Feature","geometry":{"type":"GeometryCollection","geometries":[]},"properties":{"n":1}}`,
+	`{"type":"GeometryCollection","geometries":[{"type":"MultiPoint","coordinates":[]},{"type":"GeometryCollection","geometries":[]}]}`,
+	`{"type":"FeatureCollection","features":[{"type":"Feature","geometry":{"type":"MultiPolygon","coordinates":[]},"properties":{}}]}`,
 }
 
 // ---- areas ------------------------------------------------------------------
@@ -378,6 +394,67 @@ func (p pool) rectArea(rt *rapid.T, kinds []string) []string {
 		x0, y0, x1, y1 := p.box(rt, true)
 		return []string{"BOUNDS", fs(y0), fs(x0), fs(y1), fs(x1)}
 	}
+}
+
+// coverArea draws a plain rectangle that holds (or just fails to hold) the
+// whole collection: exactly its bounds, the bounds widened by 1 ulp64 / 1e-9 /
+// 1 degree, the whole world, and the smallest TILE / QUADKEY / HASH cell that
+// contains the bounds.
+func coverArea(rt *rapid.T, cover *geometry.Rect) []string {
+	world := []string{"BOUNDS", "-90", "-180", "90", "180"}
+	if cover == nil {
+		return world
+	}
+	b := *cover
+	box := func(m float64, ulp bool) []string {
+		x0, y0, x1, y1 := b.Min.X-m, b.Min.Y-m, b.Max.X+m, b.Max.Y+m
+		if ulp {
+			x0, y0 = math.Nextafter(x0, math.Inf(-1)), math.Nextafter(y0, math.Inf(-1))
+			x1, y1 = math.Nextafter(x1, math.Inf(1)), math.Nextafter(y1, math.Inf(1))
+		}
+		cl := func(v, lim float64) float64 { return math.Max(-lim, math.Min(lim, v)) }
+		return []string{"BOUNDS", fs(cl(y0, 90)), fs(cl(x0, 180)), fs(cl(y1, 90)), fs(cl(x1, 180))}
+	}
+	switch rapid.SampledFrom([]string{"world", "exact", "ulp", "f32", "1e-9", "1deg", "tile", "quadkey", "hash", "tile0"}).Draw(rt, "coverkind") {
+	case "exact":
+		return box(0, false)
+	case "ulp":
+		return box(0, true)
+	case "f32":
+		// the float32 box the index itself would report
+		return []string{"BOUNDS", fs(f32dn(b.Min.Y)), fs(f32dn(b.Min.X)), fs(f32up(b.Max.Y)), fs(f32up(b.Max.X))}
+	case "1e-9":
+		return box(1e-9, false)
+	case "1deg":
+		return box(1, false)
+	case "tile0":
+		return []string{"TILE", "0", "0", "0"}
+	case "tile", "quadkey":
+		// deepest tile that holds both corners
+		for z := 22; z >= 1; z-- {
+			ax, ay := tileOf(b.Min.X, b.Min.Y, z)
+			bx, by := tileOf(b.Max.X, b.Max.Y, z)
+			if ax == bx && ay == by {
+				if rapid.Bool().Draw(rt, "asquadkey") {
+					return []string{"QUADKEY", bing.TileXYToQuadKey(ax, ay, uint64(z))}
+				}
+				return []string{"TILE", strconv.FormatInt(ax, 10), strconv.FormatInt(ay, 10), strconv.Itoa(z)}
+			}
+		}
+		return []string{"TILE", "0", "0", "0"}
+	case "hash":
+		h1 := geohash.EncodeWithPrecision(b.Min.Y, b.Min.X, 12)
+		h2 := geohash.EncodeWithPrecision(b.Max.Y, b.Max.X, 12)
+		n := 0
+		for n < 12 && h1[n] == h2[n] {
+			n++
+		}
+		if n > 0 {
+			return []string{"HASH", h1[:n]}
+		}
+		return world
+	}
+	return world
 }
 
 var rectKinds = []string{"BOUNDS", "BOUNDS", "TILE", "QUADKEY", "HASH"}
@@ -410,12 +487,13 @@ func (p pool) radius(rt *rapid.T, cx, cy float64) float64 {
 }
 
 // (rapid favours the front of a SampledFrom list, so the order matters)
-var areaKindsPkg = []string{"BOUNDS", "CIRCLE", "OBJECT", "GET", "BOUNDS", "TILE", "QUADKEY", "HASH", "OBJECT", "CIRCLE", "POINT", "BOUNDS", "OBJECT"}
-var areaKindsSrv = []string{"BOUNDS", "CIRCLE", "OBJECT", "GET", "SECTOR", "BOUNDS", "TILE", "QUADKEY", "HASH", "OBJECT", "CIRCLE", "POINT", "BOUNDS", "OBJECT", "SECTOR"}
+var areaKindsPkg = []string{"BOUNDS", "CIRCLE", "COVER", "OBJECT", "GET", "BOUNDS", "TILE", "QUADKEY", "HASH", "OBJECT", "CIRCLE", "POINT", "BOUNDS", "OBJECT"}
+var areaKindsSrv = []string{"BOUNDS", "CIRCLE", "COVER", "OBJECT", "GET", "SECTOR", "BOUNDS", "TILE", "QUADKEY", "HASH", "OBJECT", "CIRCLE", "POINT", "BOUNDS", "OBJECT", "SECTOR"}
 
 // area draws a query area. server enables the syntaxes that exist only at the
 // protocol level (SECTOR). ids are the live ids a GET may reference.
-func (p pool) area(rt *rapid.T, server bool, key string, ids []string) areaSpec {
+// cover is the box of everything stored (nil: nothing has a position).
+func (p pool) area(rt *rapid.T, server bool, key string, ids []string, cover *geometry.Rect) areaSpec {
 	var a areaSpec
 	kinds := areaKindsPkg
 	if server {
@@ -424,6 +502,8 @@ func (p pool) area(rt *rapid.T, server bool, key string, ids []string) areaSpec 
 	switch rapid.SampledFrom(kinds).Draw(rt, "areakind") {
 	case "BOUNDS":
 		a.Args = p.rectArea(rt, []string{"BOUNDS"})
+	case "COVER":
+		a.Args = coverArea(rt, cover)
 	case "CIRCLE":
 		x, y := p.xy(rt)
 		a.Args = []string{"CIRCLE", fs(y), fs(x), fs(p.radius(rt, x, y))}
